@@ -32,6 +32,10 @@ CACHE = os.path.join(OUT, ".cache")
 REPLAYS = os.path.join(OUT, "replays")
 EVIDENCE = os.path.join(OUT, "evidence")
 PROPS = ["C03", "C05", "C07", "C10", "C11", "C12", "C17", "C18", "C19"]
+# "ALL" (the complete result of every call, provenance of borrowed lines included) is not a
+# property and is registered nowhere; tools/premise_audit.sh uses it, with TW_OUT set.
+if os.environ.get("TW_OUT"):
+    PROPS = PROPS + ["ALL"]
 NEEDS_SMAWK = {"C03"}  # optimal-fit does not exist without default features
 
 PINNED = {
@@ -44,6 +48,7 @@ PINNED = {
     "C17": "the String left behind by fill_inplace",
     "C18": "the text dedent returns",
     "C19": "the text indent returns",
+    "ALL": "the complete result of every call on every entry point, including which lines are borrowed from the caller's buffer and where",
 }
 
 
@@ -303,13 +308,14 @@ def main():
         die(f"usage: check.py <{'|'.join(PROPS)}> [quick|thorough]  |  --replay <file>")
     prop = sys.argv[1]
     tier = (sys.argv[2] if len(sys.argv) > 2 else os.environ.get("VERIF_TIER", "quick")).lower()
+    miri_only = tier == "miri"  # premise audit --miri: the interpreter pass alone
     if tier not in ("quick", "thorough"):
         tier = "quick"
     try:
         seed = int(os.environ.get("VERIF_SEED", "1"))
     except ValueError:
         seed = 1
-    runs = 2000
+    runs = int(os.environ.get("PROBE_RUNS", "2000")) if os.environ.get("TW_OUT") else 2000
     seeds = [seed] if tier == "quick" else list(range(seed, seed + 12))
     t0 = time.time()
     os.makedirs(CACHE, exist_ok=True)
@@ -324,7 +330,7 @@ def main():
     violation = None
     miri_execs = 0
     try:
-        for feats, binary in feature_sets:
+        for feats, binary in ([] if miri_only else feature_sets):
             for s in seeds:
                 st, smp, hs = explore(prop, binary, feats, s, runs)
                 hot_seconds += hs
@@ -334,8 +340,8 @@ def main():
                         total[k] = total.get(k, 0) + v
                 if len(samples) < 3:
                     samples += smp
-        if tier == "thorough":
-            miri_execs = miri_pass(prop, 6, 16, seed)
+        if tier == "thorough" or miri_only:
+            miri_execs = miri_pass(prop, int(os.environ.get("MIRI_WORKLOADS", "6")), int(os.environ.get("MIRI_SCHEDULES", "16")), seed)
     except Violation as v:
         violation = v
     wall = time.time() - t0
